@@ -30,6 +30,7 @@ type iterInfo struct {
 	str     *Term
 	// maps of unknown contents: the keys handed out so far, the key of the current iteration, creation order
 	visited *Term
+	count   *Term // keys handed out so far
 	curKey  *Term
 	msort   *Sort
 	seq     int
@@ -548,6 +549,42 @@ func instancesOfGoal(pcIn []*Term, cands []*Term, goal *Term) []*Term {
 	}
 	for _, t := range s.pc {
 		visit(t)
+	}
+	// integer-valued applications that first appear in the instances (a permutation applied to a skolem index, say)
+	// are instantiation candidates in their turn, once
+	{
+		var extra []*Term
+		seenC := map[*Term]bool{}
+		for _, c := range cands {
+			seenC[c] = true
+		}
+		var rec func(x *Term)
+		rec = func(x *Term) {
+			if len(extra) >= 8 || x.open {
+				return
+			}
+			if x.Op == "app" && x.Sort == SInt && !occ[x] && !seenC[x] && !x.ground && x.Str != "go_div" && x.Str != "go_rem" && !definedFuncs[x.Str] {
+				seenC[x] = true
+				extra = append(extra, x)
+			}
+			for _, a := range x.Args {
+				rec(a)
+			}
+		}
+		for _, t := range out {
+			rec(t)
+		}
+		if len(extra) > 0 {
+			for _, x := range extra {
+				mark(x)
+			}
+			savedC := cands
+			cands = extra
+			for _, t := range s.pc {
+				visit(t)
+			}
+			cands = savedC
+		}
 	}
 	// an instance  g => (A and B and ...)  is kept as separate implications, so that a quantified conjunct does not
 	// take the quantifier-free ones with it when quantified facts are left out of a query
